@@ -142,7 +142,7 @@ def _compare(name, step, op, projection, got, ref, rtol, case, changed):
     "C11",
     "reuse_history",
     history_case,
-    quick=260,
+    quick=500,
     thorough=8000,
     tol="ulp32: potentials 2e-5*max|ref| (observed 0), exit waves 2e-4*max|ref|; grids exact / 1e-12",
     rule="history contains result -> actual grid change -> result",
